@@ -272,7 +272,13 @@ def run_cli(spec, res):
                     # a very long line (above 64 KiB, sometimes around 1 MiB)
                     m["big"] = rng.choice(["x", "é", "word "]) * rng.choice([70000, 140000, 1100000])
                     kinds.add("long_message")
-                enc = json.dumps(m, ensure_ascii=rng.random() < 0.5).encode("utf-8")
+                ascii_only = rng.random() < 0.5
+                if rng.random() < 0.12:
+                    # text that is not valid Unicode (a file name decoded with surrogateescape) travels as an ASCII escape
+                    m[gen_keyname(rng)] = rng.choice(["report-\udcff.txt", "\ud800", "a\udfffb\u2028c"])
+                    ascii_only = True
+                    kinds.add("surrogate_text")
+                enc = json.dumps(m, ensure_ascii=ascii_only).encode("utf-8")
                 lines.append(("eliot", m, enc))
             else:
                 k = rng.choice(FOREIGN_KINDS)
